@@ -12,7 +12,7 @@ from vlib.ctx import P, verdict, detail
 from vlib.obl import Obl
 from vlib.base import run, symbolic_mode, notrace
 
-LEVEL = "other"
+LEVEL = "model_checking"
 EXPLANATION = ("bounded-exhaustive symbolic decision-table checking: the real requirements code is executed symbolically over line kinds, file placement, a symbolic permutation of files and "
                "lines, and installed/recorded/requested version indices; z3 enumerates the path space and decides the postcondition on each path")
 BOUNDS = {"quick": "3 lines: first any of 14 line kinds, second any of 8, third any of 4 (pins 2.0.9 / 2.0.10 / unpinned / other package), over 2 files in both glob orders, both line orders; "
